@@ -18,6 +18,7 @@ namespace RbModel.ErrL
 open RbModel RbModel.Num RbModel.Ast RbModel.ErrL.Compile
 open RbModel.JmpL.Compile (Dp)
 open RbModel.CoreWf (slotsB exprWtB condB itemsB isRelB caseB condsB readB)
+open RbModel.Ast (CaseExpr)
 
 mutual
 /-- the labels defined inside a statement, in program order -/
@@ -124,7 +125,7 @@ def wfB (sl : List Ty) (dp : Dp) (d e : Nat) : SStmt → Bool
     slotsB sl.length sel && wfCasesB sl dp d (e + 1) cases && wfB sl dp d (e + 1) els && (hasElse || isSkipB els) &&
       leavesB dp.sd e (cases.labels ++ els.labels) (cases.gotos ++ els.gotos)
   | .forLoop x t lo hi step body _ =>
-    decide (sl[x]? = some t) && slotsB sl.length lo && exprWtB sl lo && slotsB sl.length hi &&
+    decide (sl[x]? = some t) && slotsB sl.length lo && exprWtB sl lo && slotsB sl.length hi && exprWtB sl hi &&
       (match step with | none => true | some se => slotsB sl.length se && body.labels.isEmpty) &&
       wfB sl dp (d + 1) e body && leavesB dp.fd d body.labels body.gotos
   | .label _ _ _ => true
@@ -146,6 +147,56 @@ def wfCasesB (sl : List Ty) (dp : Dp) (d e : Nat) : SCases → Bool
     !conds.isEmpty && condsB sl.length conds && wfB sl dp d e body && wfCasesB sl dp d e rest
 end
 
+/-! ### the premise clauses the simulation proof forced (`Thm/ErrLSimBase.lean`, `Wf`) -/
+
+/-- cannot fail: a literal or a variable -/
+def atomicB : Ast.Expr → Bool
+  | .lit _ _ => true
+  | .var _ _ _ => true
+  | .paren e _ => atomicB e
+  | _ => false
+
+/-- no operand is pending on the value stack when the expression fails: the right operand of every operator is atomic -/
+def noPendingB : Ast.Expr → Bool
+  | .lit _ _ => true
+  | .var _ _ _ => true
+  | .paren e _ => noPendingB e
+  | .un _ e _ => noPendingB e
+  | .bin _ l r _ _ => noPendingB l && atomicB r
+
+def caseNoPendingB : CaseExpr → Bool
+  | .simple e => noPendingB e
+  | .is _ e => noPendingB e
+  | .range lo hi => noPendingB lo && noPendingB hi
+
+/-- the STEP of a FOR is a numeric literal other than zero -/
+def stepLitB : Ast.Expr → Bool
+  | .lit v _ =>
+    match tryCmp v (.int 0) with
+    | .ok .lt => true
+    | .ok .gt => true
+    | _ => false
+  | _ => false
+
+mutual
+/-- the clauses of the simulation theorem's premise that `wfB` does not check: the items of a CASE have no operand pending
+when they fail (open finding C05-h), the STEP of a FOR is a numeric literal other than zero (recorded finding C05-g) -/
+def wfXB : SStmt → Bool
+  | .seq a b => wfXB a && wfXB b
+  | .ifBlock _ thn elifs _ els _ => wfXB thn && wfXElifsB elifs && wfXB els
+  | .select _ cases _ els _ => wfXCasesB cases && wfXB els
+  | .forLoop _ _ _ _ step body _ => (match step with | none => true | some se => stepLitB se) && wfXB body
+  | .while _ body _ => wfXB body
+  | .doLoop _ _ _ body _ => wfXB body
+  | _ => true
+def wfXElifsB : ElseIfs → Bool
+  | .nil => true
+  | .cons _ body rest => wfXB body && wfXElifsB rest
+def wfXCasesB : SCases → Bool
+  | .nil => true
+  | .cons conds body rest => conds.all caseNoPendingB && wfXB body && wfXCasesB rest
+end
+
 /-- DATA statements only at the top level -/
 def wfTopB (sl : List Ty) (dp : Dp) : SStmt → Bool
   | .seq a b => wfTopB sl dp a && wfTopB sl dp b
@@ -162,5 +213,9 @@ def progWfB (prog : SProgram) : Bool :=
   wfTopB prog.slots dp prog.body && nodupB prog.body.labels &&
     prog.body.gotos.all prog.body.labels.contains && prog.body.gosubs.all prog.body.labels.contains &&
     prog.body.errLabels.all prog.body.labels.contains
+
+/-- the whole premise of the error layer's simulation theorem (`Thm/ErrLWf.lean`: `progWfB_sound`), executable: what `errl.wf`
+answers -/
+def progWfXB (prog : SProgram) : Bool := progWfB prog && wfXB prog.body
 
 end RbModel.ErrL
